@@ -5,7 +5,7 @@
     function, or an external command (status given by the oracle [ext]). The block structure
     is that of Model/Script.v (run_lines is reused, with this file's [exec_line] as its
     run_line oracle and the state's flag as exit_on_error). No proofs here. *)
-From Cicada Require Import Base.Chars Base.Peg Gen.LocustGrammar Model.Script Model.Args.
+From Cicada Require Import Base.Chars Base.Peg Gen.LocustGrammar Model.Script Model.Args Model.Cmds Model.ListExec Model.CondLine.
 From Coq Require Import ZArith.
 Local Open Scope N_scope.
 
@@ -41,22 +41,23 @@ Variable n : nat.                          (* while bound of Model/Script.v *)
 Definition no_words (w : shs) (_ : str) : shs * list str := (w, []).
 Definition no_setvar (w : shs) (_ _ : str) : shs := w.
 
-Fixpoint exec_line (fuel : nat) (w : shs) (line : str) {struct fuel} : shs * list Z :=
+(** one pipeline of a line: `set -e`, `source f`, a function call, or an external command *)
+Fixpoint exec_pipe (fuel : nat) (w : shs) (line : str) {struct fuel} : shs * Z :=
   match fuel with
-  | O => (w, [])
+  | O => (w, 0%Z)
   | S f =>
       let '(cmd, rest) := first_word line in
-      if str_eqb line s_set_e then (mk_shs true (s_funcs w) (s_log w), [0%Z])       (* builtins/set.rs *)
-      else if str_eqb cmd s_source then                                             (* builtins/source.rs *)
-        let '(w1, st) := run_script f w (trim rest) in (w1, [st])
+      if str_eqb line s_set_e then (mk_shs true (s_funcs w) (s_log w), 0%Z)        (* builtins/set.rs *)
+      else if str_eqb cmd s_source then run_script f w (trim rest)                    (* builtins/source.rs *)
       else
         match get_func cmd (s_funcs w) with
         | Some body =>                                                              (* core.rs try_run_func *)
-            match run_lines shs (exec_line f) no_words no_setvar s_eoe n body w with
-            | Some (Done w1 crs _ _) => (w1, [func_call_status crs])
-            | _ => (w, [0%Z])
+            (* let cr_list = run_lines(body); status = cr_list.last().map_or(0, |cr| cr.status) *)
+            match run_lines shs (run_line_of shs (exec_pipe f)) no_words no_setvar s_eoe n body w with
+            | Some (Done w1 crs _ _) => (w1, func_call_status crs)
+            | _ => (w, 0%Z)
             end
-        | None => (mk_shs (s_eoe w) (s_funcs w) (s_log w ++ [line]), [ext line])
+        | None => (mk_shs (s_eoe w) (s_funcs w) (s_log w ++ [line]), ext line)
         end
   end
 with run_script (fuel : nat) (w : shs) (path : str) {struct fuel} : shs * Z :=
@@ -69,7 +70,7 @@ with run_script (fuel : nat) (w : shs) (path : str) {struct fuel} : shs * Z :=
           let '(defs, text_new) := function_table text in
           let w0 := mk_shs (s_eoe w) (set_funcs defs (s_funcs w)) (s_log w) in
           let '(w1, crs) :=
-            match run_lines shs (exec_line f) no_words no_setvar s_eoe n text_new w0 with
+            match run_lines shs (run_line_of shs (exec_pipe f)) no_words no_setvar s_eoe n text_new w0 with
             | Some (Done w1 crs _ _) => (w1, crs)
             | _ => (w0, [])
             end in
@@ -77,5 +78,10 @@ with run_script (fuel : nat) (w : shs) (path : str) {struct fuel} : shs * Z :=
           (mk_shs (s_eoe w) (s_funcs w1) (s_log w1), script_status crs)
       end
   end.
+
+(** one script line = an and-or list of such pipelines (execute::run_command_line, Model/ListExec.v):
+    the result vector holds the status of every pipeline that was executed *)
+Definition exec_line (fuel : nat) (w : shs) (line : str) : shs * list Z :=
+  run_line_of shs (exec_pipe fuel) w line.
 
 End M.
